@@ -698,13 +698,13 @@ def analyse_start(o):
         st["ids-minted-per-due-id=%d" % nm] += 1
         done = [r for r in rs if r in results]
         if len(done) == len(rs) and nm != 1:
-            F.append(("C13", "start-mint", "%d concurrent requests presenting the due id #%d minted %d new ids (exactly one is expected)" % (len(rs), k, nm)))
+            F.append(("C04", "start-mint", "%d concurrent requests presenting the due id #%d minted %d new ids (exactly one is expected)" % (len(rs), k, nm)))
         sids = set(results[r][1] for r in done if results[r][0] == "sess")
         if len(sids) > 1:
-            F.append(("C13", "start-split", "requests presenting id #%d were answered with different sessions: %s" % (k, sorted(sids))))
+            F.append(("C04", "start-split", "requests presenting id #%d were answered with different sessions: %s" % (k, sorted(sids))))
         bad = [(r, results[r][0]) for r in done if results[r][0] != "sess"]
         if bad:
-            F.append(("C13", "start-lost", "requests presenting the due id #%d were not served: %s" % (k, bad[:4])))
+            F.append(("C04", "start-lost", "requests presenting the due id #%d were not served: %s" % (k, bad[:4])))
         if len(rs) > 1:
             st["same-id-requests"] += len(rs)
     st["start-requests"] += len(presented)
@@ -842,6 +842,8 @@ def check(prop, tier, seed, replay=None):
     if hbin is None:
         return rep.finish()
     lean_ok = lean_part(rep, prop)
+    from . import facts
+    fact_msgs = facts.facts_for(rep, prop)
     if lean_ok:
         # the default lake target is the library; the executable with `driver mx` is a target of its own
         ok, out, _ = env.lake_build(["driver"])
@@ -977,4 +979,34 @@ def check(prop, tier, seed, replay=None):
         o = disc[0]
         p = write_replay(prop, 905, ["generator error: Unlock by a goroutine that does not hold the key"], replay_text(o, []), ext="script")
         rep.violation(p, "generator error: client discipline violated in %d scenarios" % len(disc), no_input=True)
+    facts.report_fact_failures(rep, prop, fact_msgs)
     return rep.finish()
+
+
+# ---------------------------------------------------------------------------
+# C04: K concurrent requests on one due id (used by vlib/check.py)
+
+def concurrent_rotation(rep, tier, seed, counter):
+    """Runs the concurrent-Start scenarios on the real package and reports what C04 says about them: exactly one id is
+    minted for a due id however many requests present it concurrently, and all of them get the same session."""
+    hbin = env.build_harness("ft")
+    ok, out, _ = env.lake_build(["driver"])
+    rnd = random.Random(seed * 1000003 + 404)
+    n = 120 if tier == "quick" else 4000
+    scens = [gen_start(rnd, i, tier) for i in range(n)]
+    outs = run_all(hbin, scens)
+    good = [o for o in outs if o.status == "ok"]
+    rep.cov["concurrent_start_scenarios"] = len(good)
+    rep.cov["concurrent_start_infrastructure_errors"] = len(outs) - len(good)
+    bad = []
+    for o in good:
+        obs, _ = classify(o, "C04")
+        if obs:
+            bad.append((o, obs))
+    bad.sort(key=lambda x: len(x[0].scen.script))
+    for o, obs in bad[:1]:
+        counter[0] += 1
+        p = write_replay("C04", counter[0], ["C04 violated under concurrency: " + obs[0][2], "scenario %s (harness mode mx/start)" % o.scen.name],
+                         replay_text(o, []), ext="mxscript")
+        rep.violation(p, "%s: %s (scenario %s)" % (obs[0][1], obs[0][2], o.scen.name))
+    return len(bad)
